@@ -11,6 +11,7 @@ import (
 	"sort"
 
 	"verifsim/core"
+	"verifsim/simnet"
 )
 
 // Fault is one fate decided by the link (or, for "burst", by the link or the
@@ -51,6 +52,8 @@ type Scenario struct {
 	Restarts   []Restart `json:"restarts,omitempty"`
 	// Conc (mode conc, see conc.go): reports produced while packets are being processed.
 	Conc *Conc `json:"conc,omitempty"`
+	// Whole (mode whole, see whole.go): the receiver behind the library's UDP entry points.
+	Whole *Whole `json:"whole,omitempty"`
 	// Strict selects the literal reading of the statement (never set by the
 	// generator; used to replay the two observations listed in Assumptions):
 	// only injected restarts excuse a backward step or a repeated delivery, and
@@ -76,6 +79,10 @@ func gen(seed uint64, tier string) Scenario {
 	// a twelfth of the runs: reports concurrent with packets (hash-derived so that no other choice moves)
 	if core.HS(seed, "c14.conc", "", 0)%12 == 0 {
 		return genConc(seed)
+	}
+	// a tenth: the receiver as the client and the server configure it, datagrams over the simulated network
+	if core.HS(seed, "c14.whole", "", 0)%10 == 0 {
+		return genWhole(seed)
 	}
 	r := core.NewRand(seed, "c14")
 	sc := Scenario{Seed: seed}
@@ -256,6 +263,27 @@ func minInt(a, b int) int {
 }
 
 func shrink(sc Scenario) []Scenario {
+	if sc.Whole != nil {
+		var out []Scenario
+		if sc.Whole.Packets > 30 {
+			c := sc
+			ww := *sc.Whole
+			ww.Packets /= 2
+			c.Whole = &ww
+			out = append(out, c)
+		}
+		for _, f := range []func(*simnet.Config){func(n *simnet.Config) { n.UDPDup = 0 }, func(n *simnet.Config) { n.UDPDrop = 0 }, func(n *simnet.Config) { n.UDPReorder = 0 }} {
+			c := sc
+			ww := *sc.Whole
+			before := ww.Net
+			f(&ww.Net)
+			if ww.Net != before {
+				c.Whole = &ww
+				out = append(out, c)
+			}
+		}
+		return out
+	}
 	if sc.Conc != nil {
 		var out []Scenario
 		if sc.Conc.Packets > 20 {
@@ -411,11 +439,13 @@ func init() {
 	f := core.Register("C14", gen, run, shrink)
 	f.Real = []string{
 		"pkg/rtpreceiver.Receiver (Initialize, ProcessPacket2, Stats, Close, its report goroutine and time.Ticker on the fake clock)",
+		"mode whole (a tenth of the runs): gortsplib.Client playing over UDP from a scripted server (client_format.go creates the receiver), gortsplib.Server recording over UDP from a scripted publisher (server_session_format.go does)",
 		"pion/rtp.Packet, pion/rtcp.ReceiverReport",
 	}
 	f.Simulated = []string{
 		"ordered RTP source (start sequence number, sender restarts with a jump of the sequence number and optionally a new SSRC)",
 		"lossy link: single drops, loss bursts (skipped sequence numbers), duplication (extra copies arriving 0..2*BufferSize+1 positions later), bounded displacement (single packets and blocks arriving later than their place), silences; reliable mode: no duplication and no displacement",
+		"mode whole: scripted server / publisher (harness code on pkg/base + pkg/conn), UDP datagrams over simnet with loss, duplication and displacement by up to ~10 positions",
 		"time: arrivals are separated by seeded idle times on the fake clock of a synctest bubble; the receiver's report ticker fires between arrivals",
 	}
 	f.Excluded = []string{
@@ -425,7 +455,7 @@ func init() {
 		"jitter, SSRC fields, sender-report fields of the receiver report, PacketNTP (C15)",
 		"sender reports (ProcessSenderReport is not called)",
 	}
-	f.Rule = "scenario = mode (unreliable 70% / reliable) x BufferSize (0=default, 1..512 powers of two) x start sequence number (45% chosen so that the 65535->0 wrap falls at a uniformly chosen position inside the run, 10% edge values, else uniform over all 65536) x 1..3 sender incarnations (restart jump far backwards / far forwards / about half the sequence space / near) x explicit per-packet link fates (drop, burst, dup, delay, block delay, pause; each kind enabled per run with its own density) x report period 5..100 ms and pacing; a tail of BufferSize+2.. undisturbed packets ends the run. A run is non-trivial when at least one link fault or restart fired, at least BufferSize+2 packets were delivered and at least one receiver report was captured. Two runs are distinct when the hash of their (arrival, deliveries, lost) event sequence and captured reports differs."
+	f.Rule = "scenario = mode (unreliable 70% / reliable) x BufferSize (0=default, 1..512 powers of two) x start sequence number (45% chosen so that the 65535->0 wrap falls at a uniformly chosen position inside the run, 10% edge values, else uniform over all 65536) x 1..3 sender incarnations (restart jump far backwards / far forwards / about half the sequence space / near) x explicit per-packet link fates (drop, burst, dup, delay, block delay, pause; each kind enabled per run with its own density) x report period 5..100 ms and pacing; a twelfth: reports concurrent with packets; a tenth: whole-system mode (side client/server x AnyPortEnable x SETUP answer with / without / zero server ports x network loss, duplication, displacement; oracles: strictly increasing callbacks, OnPacketsLost total = skipped numbers, everything delivered when nothing is lost); a tail of BufferSize+2.. undisturbed packets ends the run. A run is non-trivial when at least one link fault or restart fired, at least BufferSize+2 packets were delivered and at least one receiver report was captured. Two runs are distinct when the hash of their (arrival, deliveries, lost) event sequence and captured reports differs."
 	f.Assumptions = []string{
 		"'detected sender restart' is read with the statement's own bound: BufferSize+1 consecutive arrivals that are all at or behind the last delivered sequence number are a restart as far as any receiver can tell, so a backward step of the delivered sequence (or a repeated delivery) at such an arrival is accepted, whether the scenario injected a restart or the run of stale packets was made of duplicates and late packets; a backward step anywhere else is a violation (a scenario with \"strict\": true accepts only injected restarts: with BufferSize 1 two extra copies of one packet are then reported as a duplicate delivery)",
 		"oracle 2 (displaced packet is delivered) is asserted for a packet P only when (a) the incarnation it belongs to is already being followed (an earlier packet of it was delivered; for the first incarnation: P is not the very first arrival's predecessor), (b) every packet that overtook P lies within BufferSize-1 sequence numbers of P, (c) when P was first overtaken the receiver had delivered P's immediate predecessor, i.e. P's lateness was the only open gap, (d) at least one packet BufferSize or more sequence numbers after P arrives later in the same incarnation (so the receiver had to decide), (e) no (accepted) restart detection happened between P being overtaken and P being delivered. Packets that are late while an older loss is still unresolved are counted in probe o2_literal_miss when dropped and reported only in scenarios with \"strict\": true (BufferSize 4, packet k lost, packet k+1 arriving after k+4: the receiver flushes at k+4 and then discards k+1 although it is displaced by 3 < 4 positions)",
